@@ -84,8 +84,7 @@ func VerifC20Chunks101() { verifC20Chunks(99, 101) }
 // encoder's loop body appends is decoded by the real decoder to exactly the chunk body, and fits in 255 bytes.
 func verifC20Lemma(cMax int) {
 	v := vf.String("payload", 60000)
-	vf.CutLoop("BreakIntoNextProtos", "for.loop", func(count, i int, ret []string) {
-		entry := ret[len(ret)-1]
+	check := func(count, i int, entry string) {
 		end := i + 214
 		if end > len(v) {
 			end = len(v)
@@ -95,7 +94,25 @@ func verifC20Lemma(cMax int) {
 		out, err := CombineFromNextProtos(vfPrefix, []string{"unrelated-proto", entry})
 		vf.Assert("decoder-recovers-the-chunk", vf.And(err == nil, out == chunk))
 		vf.Reach("checked")
-	}, "count", 0, cMax, "i", 0, 60000)
+	}
+	if vf.Native() {
+		// native twin of the loop cut: reach the same loop state honestly (count full chunks before this one)
+		count, i := vf.Int("loop-count", 0, cMax), vf.Int("loop-i", 0, 60000)
+		if i >= len(v) {
+			return // the model's loop state lies past the payload: the loop body does not run
+		}
+		end := i + 214
+		if end > len(v) {
+			end = len(v)
+		}
+		entries, err := BreakIntoNextProtos(vfPrefix, strings.Repeat("x", count*214)+v[i:end])
+		if err != nil || len(entries) != count+1 {
+			panic("native loop-cut twin: unexpected chunking")
+		}
+		check(count, i, entries[count])
+		return
+	}
+	vf.CutLoop("BreakIntoNextProtos", "for.loop", func(count, i int, ret []string) { check(count, i, ret[len(ret)-1]) }, "count", 0, cMax, "i", 0, 60000)
 	_, _ = BreakIntoNextProtos(vfPrefix, v)
 }
 func VerifC20Lemma99()  { verifC20Lemma(99) }
